@@ -142,6 +142,11 @@ func (s *Socket) RecvMsg(b []byte) (int, Msg, error) {
 		for _, f := range msg.Fds {
 			syscall.Close(f)
 		}
+		if flags&syscall.MSG_TRUNC == 0 {
+			// only the control data was cut short (e.g. no room left in the descriptor table):
+			// the payload in b is complete, a caller that keeps a stream state may want it
+			return n, Msg{}, errMessageTruncated
+		}
 		return 0, Msg{}, errMessageTruncated
 	}
 	return n, msg, nil
